@@ -574,6 +574,23 @@ impl Crystal {
         (c, 2.0 * e.abs())
     }
 
+    /// Pseudo-symmetric twin: the lattice is stretched along the direction of one basis vector by `delta` (Cartesian length
+    /// added to that vector), the fractional coordinates are kept.  Every operation of the generating group still maps the
+    /// atoms onto atoms exactly (fractional coordinates), but those that move the stretched axis no longer preserve the
+    /// metric: the symmetry of the crystal is a subgroup that is NOT recorded (truth-independent clauses only).
+    pub fn stretch_axis(&self, axis: usize, delta: f64) -> Crystal {
+        let mut c = self.clone();
+        let basis = self.cell.lattice.basis;
+        let v = basis.column(axis).into_owned();
+        let l = v.norm();
+        let u = v / l;
+        let s = Matrix3::<f64>::identity() + (u * u.transpose()) * (delta / l);
+        c.cell.lattice = Lattice { basis: s * basis };
+        c.truth.noisy = true;
+        c.truth.steps.push("pseudo".into());
+        c
+    }
+
     /// displace atoms by at most `radius` (Cartesian) and strain the lattice by the same relative size
     pub fn noise(&self, rng: &mut Rng, radius: f64) -> Crystal {
         let mut c = self.clone();
